@@ -30,7 +30,7 @@ def producers(facts):
         for l in range(1, b.argc + 1):
             ty = b.local_ty(l)
             if ty.startswith("&mut std::option::Option<") or ty.startswith("&mut core::option::Option<"):
-                if "Position" in ty and b.local_name(l) == "next_start":
+                if "Position" in ty:  # the out-parameter through which a producer reports where the next search starts
                     out.append((fn, l))
     return out
 
